@@ -90,7 +90,10 @@ KindDemands(e) ==
     <<"C08.kind_min",    ~IsFloatKind(e.kind) => e.minabs = (IF IsSignedKind(e.kind) THEN BAddSmall(KindMax(e.kind), 1) ELSE BZero)>>,
     <<"C08.kind_bits",   e.bits = KindBits(e.kind)>>,
     <<"C08.kind_float",  e.isfloat = IsFloatKind(e.kind)>>,
-    <<"C08.kind_signed", e.issigned = IsSignedKind(e.kind)>>
+    <<"C08.kind_signed", e.issigned = IsSignedKind(e.kind)>>,
+    <<"X.kind_snz",      e.snz = SmallestPattern(e.kind)>>,
+    <<"X.kind_fmax",     IF IsFloatKind(e.kind) THEN e.fmax = FloatMaxPattern(e.kind, 0) ELSE e.fmax = <<>>>>,
+    <<"X.kind_fmin",     IF IsFloatKind(e.kind) THEN e.fmin = FloatMaxPattern(e.kind, 1) ELSE e.fmin = <<>>>>
   >>
 
 NoDoc == [k |-> "other"]
